@@ -411,7 +411,6 @@ package pubsub
 //@   loop 1 invariant members: forall i int :: 0 <= i && i < len(lst) ==> (exists j int :: 0 <= j && j < len(lst) && lst[i] == old(lst[j]))
 //@   ensures members: forall i int :: 0 <= i && i < len(lst) ==> (exists j int :: 0 <= j && j < len(lst) && lst[i] == old(lst[j]))
 
-
 // handleIHave: ignored below the gossip threshold; at most MaxIHaveMessages IHAVEs are honoured
 // and at most MaxIHaveLength ids requested per peer per heartbeat; only unseen ids of joined
 // topics, among the first MaxIHaveLength ids of each IHAVE, are requested; the promise tracker is
